@@ -207,7 +207,7 @@ func NewParams(schema *Schema, su SimpleURL, resType string) (*Params, error) {
 		}
 
 		// Add 1 because of id
-		restOfRules := make([]string, 0, len(typ.Attrs)+1-len(sortingRules))
+		restOfRules := make([]string, 0, len(typ.Attrs))
 
 		for _, attr := range typ.Attrs {
 			found := false
